@@ -63,6 +63,7 @@ type plainWriter struct{ b []byte }
 func (w *plainWriter) Write(p []byte) (int, error) { w.b = append(w.b, p...); return len(p), nil }
 
 var c02Snippets = []string{
+	"{{ an.Name }} is {{ an.Age }} [{{ an.Tags | join: ',' }}]", "{% if an.Age > 40 %}{{ an.Name | upcase }}{% endif %}{{ an.Tags.size }}",
 	"{% for kv in m %}{{ kv[0] }}={{ kv[1] }};{% endfor %}",
 	"{% tablerow kv in m cols: 2 %}{{ kv[0] }}{% endtablerow %}",
 	"{% for kv in m reversed limit: 3 %}{{ kv[0] }}{{ forloop.index }}{% endfor %}",
@@ -119,6 +120,20 @@ func c02Bindings(c *c02Case, variant int) map[string]any {
 		pa = append(pa, &v)
 	}
 	out["pa"] = pa
+	// the same record as values of two struct types without a name, with the fields in another order
+	if variant%2 == 0 {
+		out["an"] = struct {
+			Name string
+			Age  int
+			Tags []string
+		}{"Bob", 41, []string{"x", "y"}}
+	} else {
+		out["an"] = struct {
+			Age  int
+			Tags []string
+			Name string
+		}{41, []string{"x", "y"}, "Bob"}
+	}
 	// every companion has the same logical content in every variant; only the order of insertion differs
 	rank := map[string]int{}
 	for i, k := range sortedStrings(keys) {
